@@ -304,7 +304,9 @@ class ChartRun(object):
     elif host == 'queued':
       c = hsm.HsmWithQueues(instrumented=flag)
     elif host == 'ao':
-      c = ao.ActiveObject(name='chart', instrumented=flag)
+      # without a name the object asks its start state for one (only a decorated state answers that query)
+      nameless = sc.get('nameless') and sc['build'] in ('closure-spied', 'template', 'to_code')
+      c = ao.ActiveObject(name=None if nameless else 'chart', instrumented=flag)
     elif host == 'factory':
       c = ao.Factory('chart')
     else:
